@@ -224,7 +224,8 @@ def run_units(units, repo, tier="quick", seed=0, tag="x", timeout=None, filters=
             r = results[h["unit"]]
             oid = "%s/%s" % (h["unit"], h["name"])
             o = dict(id=oid, kind="kani-harness", fn=h.get("fn", h["name"]), label=h["label"], status="discharged", detail="",
-                     text=h["label"], strength=h.get("strength", "complete"), stubs=h.get("stubs", []), harness=h["name"])
+                     text=h["label"], strength=h.get("strength", "complete"), stubs=h.get("stubs", []), harness=h["name"],
+                     finding=bool(h.get("finding")))
             pr = per.get(h["name"])
             if pr is None or pr["status"] == "unknown":
                 o["status"] = "undecided"
@@ -269,6 +270,8 @@ def run_units(units, repo, tier="quick", seed=0, tag="x", timeout=None, filters=
             if r.failed:
                 r.status = "failed"
                 for o in r.failed:
+                    if o.get("finding"):
+                        continue
                     try:
                         playback(dst, env, o)
                     except Exception as e:
